@@ -128,6 +128,19 @@ class SymVal:
 
     __hash__ = None
 
+    def __getitem__(self, item):
+        if self.kind == "bytes" and isinstance(item, slice) and item.start in (None, 0) and item.step is None \
+                and (item.stop is None or item.stop * 8 >= self.width):
+            return self
+        if self.kind == "dict" and isinstance(item, SymKey) and item.base is self:
+            return SymDerived("values_sorted", self)
+        raise Unsupported(f"subscript of symbolic {self.kind}")
+
+    def __iter__(self):
+        if self.kind == "dict":
+            return iter([SymKey(self)])
+        raise Unsupported(f"iteration over symbolic {self.kind}")
+
     def to01(self):
         if self.kind != "bits":
             raise Unsupported("to01 of non-bits")
@@ -185,7 +198,49 @@ class SymVal:
 
     __rand__ = __and__
     __or__ = __xor__ = __lshift__ = __rshift__ = _and
-    __add__ = __radd__ = __sub__ = __mul__ = __lt__ = __le__ = __gt__ = __ge__ = _and
+    __add__ = __radd__ = __sub__ = __mul__ = _and
+
+    def _guard(self, op, other):
+        """data comparison between loaded integers: a two-way guard node"""
+        if self.kind not in ("uint", "int", "coins", "varuint", "varint", "bit", "bool"):
+            raise Unsupported(f"ordering comparison of symbolic {self.kind}")
+        if isinstance(other, SymVal):
+            if other.kind not in ("uint", "int", "coins", "varuint", "varint", "bit", "bool"):
+                raise Unsupported("ordering comparison with a non-integer symbolic value")
+            b = ["var", other.var]
+        elif isinstance(other, int):
+            b = ["const", int(other)]
+        else:
+            raise Unsupported("ordering comparison with " + type(other).__name__)
+        key = ("guard", op, self.var, json.dumps(b))
+        d, new = T.decide(key)
+        if new:
+            T.events.append(["guard", op, ["var", self.var], b, d])
+        return bool(d)
+
+    def __lt__(self, o):
+        return self._guard("lt", o)
+
+    def __le__(self, o):
+        return self._guard("le", o)
+
+    def __gt__(self, o):
+        return self._guard("gt", o)
+
+    def __ge__(self, o):
+        return self._guard("ge", o)
+
+    def copy(self):
+        if self.kind in ("cell", "cellcopy"):
+            return self
+        raise Unsupported(f"copy of symbolic {self.kind}")
+
+
+class SymKey:
+    """the single stand-in key produced by iterating a symbolic dict (sorted() of one element needs no comparison)"""
+
+    def __init__(self, base):
+        self.base = base
 
 
 class SymStrMarker(str):
@@ -306,14 +361,18 @@ class SymSlice:
     def load_ref(self):
         return self._load("cell", "refcell")
 
+    def _present(self, v):
+        """fork on the presence bit of an optional load so that `is None` tests in the code see a real None"""
+        return v if test_bit(v.var, 0) else None
+
     def load_maybe_ref(self):
-        return self._load("maybecell", "mayberefcell")
+        return self._present(self._load("maybecell", "mayberefcell"))
 
     def load_dict(self, key_length, key_deserializer=None, value_deserializer=None):
         if key_deserializer is not None:
             raise Unsupported("load_dict with a key deserializer")
         sub = trace_callable(value_deserializer) if value_deserializer else ["ret", ["leafslice"]]
-        return self._load("dict", "dict", [_w(key_length), sub])
+        return self._present(self._load("dict", "dict", [_w(key_length), sub]))
 
     def load_hashmap_aug_e(self, key_length, x_deserializer=None, y_deserializer=None):
         return self._load("augdict", "augdict_e", [_w(key_length), trace_callable(x_deserializer), trace_callable(y_deserializer)])
@@ -337,7 +396,8 @@ class SymSlice:
         return self._load("cellcopy", "tocell")
 
     def copy(self):
-        return SymSliceCopy(self)
+        # a snapshot of what remains NOW; only .to_cell() on it is modelled
+        return SymSliceCopy(self, self._load("cellcopy", "tocell"))
 
     def begin_parse(self):
         return self
@@ -349,11 +409,11 @@ class SymSlice:
 class SymSliceCopy:
     """cell_slice.copy(): only .to_cell() on it is modelled (a snapshot of what remains)"""
 
-    def __init__(self, base):
-        self.base = base
+    def __init__(self, base, snapshot):
+        self.base, self.snapshot = base, snapshot
 
     def to_cell(self):
-        return self.base._load("cellcopy", "tocell")
+        return self.snapshot
 
     def __getattr__(self, name):
         raise Unsupported(f"operation {name} on a copied slice")
@@ -382,6 +442,8 @@ def expr_of(v, depth=0):
     if isinstance(v, (bytes, bytearray)):
         return ["const", {"bytes": bytes(v).hex()}]
     if isinstance(v, (list, tuple)):
+        if len(v) == 1 and isinstance(v[0], SymDerived) and v[0].how == "values_sorted":
+            return ["sortedvalues", ["var", v[0].base.var]]
         return ["list", [expr_of(x, depth + 1) for x in v]]
     if isinstance(v, dict):
         return ["derived"]
@@ -413,6 +475,11 @@ def build_tree(paths):
             one = [it for it in items if it[0][i][3] == 1]
             return ["if", e[1], e[2], rec(zero, i + 1) if zero else ["fail", "unexplored"],
                     rec(one, i + 1) if one else ["fail", "unexplored"]]
+        if e[0] == "guard":
+            zero = [it for it in items if it[0][i][4] == 0]
+            one = [it for it in items if it[0][i][4] == 1]
+            return ["guard", e[1], e[2], e[3], rec(zero, i + 1) if zero else ["fail", "unexplored"],
+                    rec(one, i + 1) if one else ["fail", "unexplored"]]
         if e[0] == "ifspecial":
             zero = [it for it in items if it[0][i][2] == 0]
             one = [it for it in items if it[0][i][2] == 1]
@@ -442,6 +509,9 @@ def explore(fn, max_paths=4000):
                 raise
             except RecursionError:
                 raise Unsupported("recursion")
+            except (TypeError, AttributeError, NotImplementedError, NameError) as e:
+                # almost certainly an operation the symbolic objects do not model: fail closed
+                raise Unsupported(f"{type(e).__name__}: {e}")
             except Exception as e:  # the code raised on this path
                 outcome = ["fail", type(e).__name__]
             paths.append((T.events, outcome))
@@ -489,6 +559,14 @@ def make_stub(name, orig_func, current):
             v = SymVal(var, "obj")
             v._event_index = len(T.events) - 1
             return v
+        if isinstance(cell_slice, SymSlice):
+            current["depth"] = current.get("depth", 0) + 1
+            try:
+                if current["depth"] > 30:
+                    raise Unsupported("recursion")
+                return orig_func(cls, cell_slice, *args, **kwargs)
+            finally:
+                current["depth"] -= 1
         return orig_func(cls, cell_slice, *args, **kwargs)
     return classmethod(stub)
 
